@@ -295,18 +295,52 @@ def record(case):
     return trace
 
 
+def _tagged_page(cfg, p):
+    if not p:
+        return False
+    c = cfg["cmds"][p[0] - 1]
+    nodes = [c] + (c["subs"] if len(p) == 1 else [c["subs"][p[1] - 1]])
+    return any(a["name"] in STYLE_TAGS for x in nodes for a in x["args"])
+
+
+def subcases(case):
+    """Transport only: TLC stops reading a trace at its first FAIL, so events in the regions of the known findings
+    (requests naming the built-in help command; pages / requests showing an argument named like a style tag) are
+    recorded as traces of their own and cannot hide what happens elsewhere in the same application."""
+    cfg = case["cfg"]
+
+    def req_isolated(r):
+        i, j = r[0], r[1]
+        if not i:
+            return False
+        c = cfg["cmds"][i - 1]
+        if c["builtin"]:
+            return True
+        if j:
+            return _tagged_page(cfg, [i, j])
+        ds = [[i, n + 1] for n, x in enumerate(c["subs"]) if x["enabled"] and x["dflt"]]
+        return any(_tagged_page(cfg, p) for p in (ds or [[i]]))
+
+    iso_p = [p for p in case["pages"] if _tagged_page(cfg, p)]
+    iso_r = [r for r in case["reqs"] if req_isolated(r)]
+    out = [dict(case, pages=[p for p in case["pages"] if p not in iso_p], reqs=[r for r in case["reqs"] if r not in iso_r])]
+    out += [dict(case, pages=[p], reqs=[]) for p in iso_p]
+    out += [dict(case, pages=[], reqs=[r]) for r in iso_r]
+    return out
+
+
 # ------------------------------------------------------------------------------------------- random configurations
 VOCAB = ["the", "of", "and", "to", "a", "in", "is", "for", "file", "files", "path", "directory", "output", "written",
          "reads", "every", "entry", "when", "given", "value", "values", "default", "used", "instead", "only", "if", "set,",
          "otherwise", "ignored.", "must", "exist", "before", "running", "caf#", "na#ve", "r#sum#", "(see", "below)",
-         "format:", "json,", "yaml", "or", "plain", "text.", "UTF8", "configuration", "internationalization", "x", "1", "42",
+         "format:", "json,", "yaml", "or", "plain", "text.", "UTF8", "configuration", "internationalization", "x", "1", "42.",
          "verbosely", "print", "nothing", "at", "all", "characteristically", "incomprehensibilities"]
 CMD_NAMES = ["add", "remove", "list", "show", "config", "init", "update", "self", "cache", "clear", "run", "build", "env",
              "check", "lock", "export", "b2", "server", "start", "stop", "dry-run", "make-all"]
 ARG_NAMES = ["name", "path", "file", "target", "source", "dest", "key", "value", "package", "version", "id", "n", "args",
-             "input-file", "pattern2"]
+             "input-file", "pattern-b"]
 OPT_NAMES = ["force", "dry-run", "output", "format", "verbose-level", "all", "tree", "no-dev", "with", "without", "only",
-             "extras", "python", "lock", "remove-untracked", "quiet-mode", "jobs", "x9", "yes", "no-cache"]
+             "extras", "python", "lock", "remove-untracked", "quiet-mode", "jobs", "xy", "yes", "no-cache"]
 ALIASES = ["ad", "rm", "ls", "sh", "cfg", "i", "up", "s2", "cc", "r", "bld", "e", "chk", "lk", "ex", "mk"]
 DEFAULTS = [["\"text\""], ["7"], ["1.5"], ["true"], ["false"], ["\"two", "words\""], ["\"" + "z" * 45 + "\""], ["0"], ["-3"]]
 LIST_DEFAULTS = [["[\"a\",", "\"b\"]"], ["[1,", "2,", "3]"], ["[\"only\"]"]]
@@ -408,7 +442,11 @@ def random_cfg(rng, tags=False):
         has_subs = (not sub) and (not anon) and rng.random() < 0.6
         dflt = anon or rng.random() < (0.25 if sub else 0.1)
         hidden = rng.random() < 0.2
-        n = {"name": name, "rank": 0, "aliases": al, "hidden": hidden, "enabled": rng.random() > 0.12, "dflt": dflt, "anon": anon,
+        enabled = rng.random() > 0.12
+        if hidden or not enabled:
+            # names that must not show up are made unmistakable: no text, label or visible name contains a "9"
+            name, al = name + "9", [x + "9" for x in al]
+        n = {"name": name, "rank": 0, "aliases": al, "hidden": hidden, "enabled": enabled, "dflt": dflt, "anon": anon,
              "builtin": False, "desc": _desc(rng)[1] if rng.random() < 0.8 else [],
              "help": [[rng.choice(VOCAB) for _ in range(rng.choice([3, 9, 30]))] if k != 1 or rng.random() < 0.5 else []
                       for k in range(rng.choice([0, 0, 1, 3]))],
@@ -570,12 +608,12 @@ def run(ctx):
     traces, cases = [], []
     nrand = 150 if quick else 2500
     for n in range(nrand):
-        case = random_case(ctx.rng, tags=(n % 10 == 9))
-        tr = record(case)
-        traces.append(tr)
-        cases.append(case)
-        ctx.count(len(tr) - 1)
-        ctx.nontrivial_n += sum(1 for ev in tr if ev["op"] == "page" and len(ev["obs"]["lines"]) > 12)
+        for case in subcases(random_case(ctx.rng, tags=(n % 10 == 9))):
+            tr = record(case)
+            traces.append(tr)
+            cases.append(case)
+            ctx.count(len(tr) - 1)
+            ctx.nontrivial_n += sum(1 for ev in tr if ev["op"] == "page" and len(ev["obs"]["lines"]) > 12)
     for tr, case in mism + samples:
         traces.append(tr)
         cases.append(case)
